@@ -142,6 +142,11 @@ func TypeName(name string) string {
 	if strings.Trim(name, decimal) == "" {
 		return "%" + name
 	}
+	// Note, the parser stores the quoted numeric type name %"42" as `"42"`
+	// (including quotes) to distinguish it from the numbered type %42.
+	if n := len(name); n > 2 && name[0] == '"' && name[n-1] == '"' && strings.Trim(name[1:n-1], decimal) == "" {
+		return "%" + name
+	}
 	return "%" + escapeName(name)
 }
 
